@@ -38,6 +38,8 @@ namespace khizmax_libcds_verif {
         std::map<void const*, int> obj_ids;
         std::map<unsigned long long, int> ptr_ids;
         int                     nfinished = 0;
+        int                     next_obj_id = 0;    // monotone: ids are never reused after forget_range
+        int                     next_ptr_id = 0;
         int                     nstarted = 0;
     };
 
@@ -54,7 +56,7 @@ namespace khizmax_libcds_verif {
         sched_state& s = S();
         auto it = s.obj_ids.find( p );
         if ( it != s.obj_ids.end()) return it->second;
-        int id = (int) s.obj_ids.size() + 1;
+        int id = ++s.next_obj_id;
         s.obj_ids[p] = id;
         return id;
     }
@@ -66,7 +68,7 @@ namespace khizmax_libcds_verif {
         auto it = s.ptr_ids.find( key );
         int id;
         if ( it != s.ptr_ids.end()) id = it->second;
-        else { id = (int) s.ptr_ids.size() + 1; s.ptr_ids[key] = id; }
+        else { id = ++s.next_ptr_id; s.ptr_ids[key] = id; }
         return id;
     }
     // the harness calls this when memory is released, so that a reused address is a new object
@@ -190,7 +192,7 @@ namespace khizmax_libcds_verif {
         sched_state& s = S();
         std::unique_lock<std::mutex> lk( s.m );
         s.n = n; s.current = -1; s.st.assign( n, 0 ); s.schedule = schedule; s.step = 0; s.overrun = false;
-        s.log_on = log_on; s.log.clear(); s.obj_ids.clear(); s.ptr_ids.clear(); s.nfinished = 0; s.nstarted = 0;
+        s.log_on = log_on; s.log.clear(); s.obj_ids.clear(); s.ptr_ids.clear(); s.next_obj_id = 0; s.next_ptr_id = 0; s.nfinished = 0; s.nstarted = 0;
         s.max_steps = max_steps;
     }
     // main thread: wait until all n workers reached worker_begin, take the first decision, wait for the end
